@@ -100,6 +100,11 @@ def work(ctx, tier):
                 c["abort_after_terminal"] = True
                 c["abort_at"] = None
             ctx.inc("scenarios_with_abort_flag_raised_by_the_terminal_event")
+        if k % 6 == 1:
+            # an observability hook fails on one event (or on all): what call() surfaces is still the attempt's own object, whatever the
+            # library does with the hook's failure (every sixth or so of these runs escalates warnings to errors)
+            sc["fault"] = {"kind": "hook", "hook": rng.choice(["metric", "log"]), "at": rng.choice([0, 1, 2, "always"]), "exc": rng.choice(["RuntimeError", "HookBoom", "BadStrError", "BadReprError", "TypeError"])}
+            ctx.inc("scenarios_with_a_failing_observability_hook")
         for e in common.pick_entries(rng, entries, 3):
             _one(ctx, sc, e, stats, sample=(k < 2 and ctx.shard == 0))
         ctx.inc("random_scenarios")
